@@ -151,6 +151,8 @@ def gen_flag(rng, cols, allow_unknown=False):
     sub = [c for c in cols if rng.random() < 0.6]
     if allow_unknown and rng.random() < 0.1:
         sub.append('nope')
+    if rng.random() < 0.5:
+        rng.shuffle(sub)        # a selection names columns; the order they are named in means nothing
     if r < 0.9:
         return sub
     return (lambda d, sub=sub: list(sub))
